@@ -18,6 +18,7 @@ All results are `ok …`: no panic, no out-of-bounds access, no overflow in eith
 -/
 import Sds.Proofs.Glue2
 import Sds.Proofs.GenEqIdx
+import Sds.Proofs.GenEqBuild
 
 namespace Sds.C02
 open Sds Outcome
@@ -238,17 +239,16 @@ example : (rankSet [0, 5, 9] 6 = 2 ∧ selectSet [0, 5, 9] 2 = some 9 ∧ select
 /-! **The position arithmetic of `sparse_vector.rs` as translated from the source on this run** (`Generated/FnsIdx.lean`):
 `split`, `combine`, `pos`, `lower_bound`, `upper_bound` and `SparseBuilder::get_buckets`, statement by statement (the two
 guarded shifts repaired after F13 included).  For every low width 1..64 the code as it is NOW is the model function the
-query theorems above are about.  `combine` is stated for `low ≤ high` (every `Pos` the queries produce) because at width
-64 the code skips a subtraction that the model performs: `GenEq.combine_ne` is the witness outside that domain. -/
+query theorems above are about.  `combine` is stated for every `Pos`, unconditionally. -/
 theorem sparse_position_arithmetic_as_translated_from_source (m : Mode) (s : Sparse) (i r hp univ w : Nat) (p : Pos)
     (hw : s.width ≤ 64) (hi : i < U64) :
     Generated.gen_SparseVector_split m s i = ok (s.split i) ∧
-    (p.low ≤ p.high → Generated.gen_SparseVector_combine m s p = s.combine m p) ∧
+    Generated.gen_SparseVector_combine m s p = s.combine m p ∧
     Generated.gen_SparseVector_pos m s r = s.pos m r ∧
     Generated.gen_SparseVector_lower_bound m s hp = s.lowerBound m hp ∧
     Generated.gen_SparseVector_upper_bound m s hp = s.upperBound m hp ∧
     (w ≤ 64 → univ < U64 → Generated.gen_SparseBuilder_get_buckets m univ w = ok (Sparse.getBuckets univ w)) :=
-  ⟨GenEq.split_eq m s i hw (fun _ => hi), fun hp' => GenEq.combine_eq m s p (Or.inr (Or.inl hp')),
+  ⟨GenEq.split_eq m s i hw (fun _ => hi), GenEq.combine_eq m s p,
    GenEq.pos_eq m s r, GenEq.lower_bound_eq m s hp, GenEq.upper_bound_eq m s hp,
    fun hw' hu => GenEq.get_buckets_eq m univ w hw' hu⟩
 
@@ -256,5 +256,11 @@ theorem sparse_position_arithmetic_as_translated_from_source (m : Mode) (s : Spa
 example : Generated.gen_SparseBuilder_get_buckets .checked (2 ^ 64 - 1) 64 = ok 1 ∧
     Generated.gen_SparseBuilder_get_buckets .checked 1000 3 = ok 125 ∧
     Generated.gen_SparseBuilder_get_buckets .checked 1001 3 = ok 126 := by decide
+
+/-- `SparseVector::select` as translated from the source on this run (`Generated/FnsBuild.lean`): the range test, `pos`,
+`combine` — unconditionally the model function, and on every encoded set the specified answer -/
+theorem sparse_select_as_translated_from_source (m : Mode) (s : Sparse) (r : Nat) :
+    Generated.gen_SparseVector_select m s r = s.select m r :=
+  GenEq.sparse_select_eq m s r
 
 end Sds.C02
